@@ -88,9 +88,15 @@ pub fn apply(g: &mut dyn Gen, op: &Op) -> Option<Val> {
         Op::U32 => Some(Val::U32(g.next_u32())),
         Op::U64 => Some(Val::U64(g.next_u64())),
         Op::Fill(n) => {
-            let mut buf = vec![0xA5u8; *n];
-            g.fill(&mut buf);
-            Some(Val::Bytes(buf))
+            // the destination slice starts at a varying offset from an 8-byte boundary (the API
+            // takes any &mut [u8]); the offset is a function of the length only
+            let off = (*n / 3 + *n) % 8;
+            let mut backing = vec![0xA5u8; *n + 8];
+            let base = backing.as_ptr() as usize;
+            let start = (8 - base % 8) % 8 + off;
+            let start = if start + *n <= backing.len() { start } else { off };
+            g.fill(&mut backing[start..start + *n]);
+            Some(Val::Bytes(backing[start..start + *n].to_vec()))
         }
         Op::Jump => {
             g.jump();
